@@ -16,7 +16,7 @@ import numpy as np
 
 from .. import bootstrap as B
 from ..common import (
-    ALL_METRICS, ASYMMETRIC, REAL_DOMAIN, OutOfDomain, Stop, abits, arr, dig, first_diff, gen_labels, gen_matrix,
+    lay_out, ALL_METRICS, ASYMMETRIC, REAL_DOMAIN, OutOfDomain, Stop, abits, arr, dig, first_diff, gen_labels, gen_matrix,
     iarr, lib_call, metric_class, style_for_metric, subgraph_state,
 )
 from ..engine import EventLog, Outcome, SimTimeout, bump, h64, library_site, raised_violation, violation
@@ -44,7 +44,7 @@ ASSUMPTIONS = [
 KINDS = ("supervised", "semi", "unsup")
 
 
-EXPECTED_PROBES = ['non_float64_data_set', 'asymmetric_metric', 'call_raises_consistently', 'file_overwritten_after_a_model_read_it', 'fit_after_file_overwritten', 'integer_valued_metric', 'non_identity_index_array', 'path_overwritten', 'unsupervised_best_k_gt_1']
+EXPECTED_PROBES = ['non_contiguous_data_set', 'non_float64_data_set', 'asymmetric_metric', 'call_raises_consistently', 'file_overwritten_after_a_model_read_it', 'fit_after_file_overwritten', 'integer_valued_metric', 'non_identity_index_array', 'path_overwritten', 'unsupervised_best_k_gt_1']
 
 SLOW_ARMS = ("restart",)
 
@@ -99,7 +99,7 @@ def gen_case(rng, arm, tier, k=0):
         metric = rng.choice(B.DTYPE_METRICS)
         D = [[float(int(abs(v)) % 4) for v in r] for r in D]
     mk = rng.randint(1, max(1, min(4, len(train) - 1)))
-    case = {"kind": kind, "metric": metric, "style": style, "ext": ext, "D": D, "Y": Y, "train": train, "unl": unl, "test": test, "max_k": mk, "min_k": rng.randint(1, mk), "dtype": dtype}
+    case = {"kind": kind, "metric": metric, "style": style, "ext": ext, "D": D, "Y": Y, "train": train, "unl": unl, "test": test, "max_k": mk, "min_k": rng.randint(1, mk), "dtype": dtype, "layout": rng.choice(("c", "c", "c", "f", "strided", "cols"))}
     metric2 = rng.choice(ALL_METRICS if style not in ("generic",) else sorted(REAL_DOMAIN))
     if dtype != "float64":
         metric2 = rng.choice(B.DTYPE_METRICS)
@@ -180,6 +180,9 @@ def run_case(case):
         if case.get("dtype", "float64") != "float64":
             D = D.astype(case["dtype"])
             bump(out.probes, "non_float64_data_set")
+        elif case.get("layout", "c") != "c":
+            D = lay_out(D, case["layout"])[1]
+            bump(out.probes, "non_contiguous_data_set")
         Y = iarr(case["Y"])
         tr, un, te = case["train"], case["unl"], case["test"]
         Xtr, Ytr, Itr = D[tr], Y[tr], iarr(tr)
@@ -341,7 +344,7 @@ def run_case(case):
                 metric = file_metric[f]
                 Bm = make(kind, metric, case)
                 rb = attempt(Bm.fit, *((Xtr.copy(), Ytr.copy(), Xun.copy()) if kind == "semi" else (Xtr.copy(), Ytr.copy())))
-                req = {"c10": True, "kind": kind, "metric": metric, "path": paths[f], "D": case["D"], "Y": case["Y"], "train": tr, "unl": un, "test": te, "max_k": case["max_k"], "min_k": case["min_k"], "dtype": case.get("dtype", "float64")}
+                req = {"c10": True, "kind": kind, "metric": metric, "path": paths[f], "D": case["D"], "Y": case["Y"], "train": tr, "unl": un, "test": te, "max_k": case["max_k"], "min_k": case["min_k"], "dtype": case.get("dtype", "float64"), "layout": case.get("layout", "c")}
                 rep = c19.restart_query(req)
                 bump(out.faults, "restart_fresh_interpreter")
                 if "error" in rep:
